@@ -315,6 +315,48 @@ def run(prog: Program, rep: Report, tier: str):
                            "is neither reproducible nor derived from the worker seed (the package's idiom for 'no "
                            "seed' is get_rng_from_global())", line=call.lineno, clause="C09.5")
     rep.floor("generator constructions in getitem paths", n_g, 5)
+
+    # ---- clause 6: no generator survives in a dataset layer that the worker hook does not replace -----------------------------
+    rep.rule("G8.no-unhooked-generator", "a dataset-family class that keeps a generator in an attribute (assigned from "
+             "get_rng_from_global() / np.random.default_rng(..) / a Generator, in the constructor or lazily in a getitem path) and "
+             "draws from it in a getitem path re-assigns that attribute in its _worker_init_fn / worker_init_fn: otherwise the "
+             "generator created in the parent process is copied into every worker and all workers replay one stream")
+    n_k = 0
+    for C in ds_family:
+        me = "self"
+        kept = {}
+        for name, fi in C.methods.items():
+            ps = fi.params()
+            me = ps[0] if ps else "self"
+            for st in ast.walk(fi.node):
+                if isinstance(st, ast.Assign):
+                    for t in st.targets:
+                        if isinstance(t, ast.Attribute) and isinstance(t.value, ast.Name) and t.value.id == me:
+                            for y in ast.walk(st.value):
+                                if isinstance(y, ast.Call):
+                                    f = y.func
+                                    nm = f.attr if isinstance(f, ast.Attribute) else getattr(f, "id", "")
+                                    if nm in ("get_rng_from_global", "default_rng", "Generator", "RandomState"):
+                                        kept[t.attr] = (name, st.lineno)
+        if not kept:
+            continue
+        used = set()
+        for name, fi in C.methods.items():
+            if name.startswith("getitem") or name.startswith("_getitem") or name == "__getitem__":
+                used |= {y.attr for y in ast.walk(fi.node) if isinstance(y, ast.Attribute) and isinstance(y.value, ast.Name)
+                         and y.attr in kept and isinstance(y.ctx, ast.Load)}
+        hooked = set()
+        for hname in ("_worker_init_fn", "worker_init_fn", "set_rng"):
+            h = C.lookup(hname)
+            if h is not None:
+                hooked |= {y.attr for y in ast.walk(h.node) if isinstance(y, ast.Attribute) and isinstance(y.ctx, ast.Store)}
+        for a in sorted(used):
+            n_k += 1
+            rep.decide(a in hooked, "G8.no-unhooked-generator", C, f"attribute:{a}", f"self.{a} is re-seeded by the worker hook",
+                       f"{C.name} keeps a generator in self.{a} (assigned in {kept[a][0]}, line {kept[a][1]}) and draws from it per "
+                       f"sample, but no worker hook of the class re-assigns it: the generator created before the workers start is "
+                       f"copied into all of them - their streams coincide and repeat every epoch", line=kept[a][1], clause="C09.6")
+    rep.floor("generator attributes of dataset layers (informational)", n_k, 0)
     names.check(prog, rep, ANCHOR_FILES, clause="C09.G1", floor=60)
 
 
